@@ -1972,6 +1972,16 @@ impl W {
         }
     }
 
+    /// Labels of every event applied so far (prefix, chosen and default events).
+    pub fn history_labels(&self) -> Vec<String> {
+        self.history.clone()
+    }
+
+    /// Plugin-visible observations: "req <label> <params>" / "resp <htlc> <response>" (chain polls excluded).
+    pub fn observations(&self) -> Vec<String> {
+        self.b_trace.clone()
+    }
+
     pub fn request_labels(&self) -> Vec<String> {
         self.req_labels.clone()
     }
